@@ -13,7 +13,7 @@ from ..simcuda import unwrap
 
 PROP = 'C07'
 TIERS = {
-    'quick': {'runs': 1400, 'chunk': 10, 'wall_cap': 75, 'min_budget': 30},
+    'quick': {'runs': 2800, 'chunk': 10, 'wall_cap': 75, 'min_budget': 30},
     'thorough': {'runs': 120000, 'chunk': 25, 'wall_cap': 850, 'min_budget': 60},
 }
 RULE = ('case = seeded construction script (verilog-style io cells / bench-style io forks, fan-out forks, fork chains, fork trees, reconvergence, '
